@@ -139,11 +139,11 @@ PIPE_RUN = {"cmd": "pipeline", "mode": "pipeline", "cases": {"quick": 20, "thoro
 # (Api/Locks2*.lean, Api/Locks2Replay.lean; driver mode `locks`): every recorded micro-step is the thread's next one and ENABLED in the model, every result is the model's
 LOCKREC_RUN = {"cmd": "lockrec", "mode": "locks", "cases": {"quick": 320, "thorough": 9600}, "shards": {"quick": 4, "thorough": 16}}
 LOCKREC_RULE = (" lockrec: per case ONE recorded schedule — a fresh store, 2…6 threads running 2…4 generated tasks each (session + blocking / non-blocking commit with retries, session + reads + drop, "
-                "chains of 1…3 overlays committed oldest first or child first, non-blocking commit while the thread's own session is alive, rollback 0…3, Nomt::root, Nomt::read; four task mixes), random yields / 20…270 µs sleeps at the "
+                "chains of 1…3 overlays (each further member prepared by a session on the chain so far — also when a competing commit has superseded the chain's base in the meantime: since the repair of F23 `Session::finish` must refuse exactly those, which the harness knows by asking `Nomt::root` under the session's own read guard) committed oldest first or child first, non-blocking commit while the thread's own session is alive, rollback 0…3, Nomt::root, Nomt::read; four task mixes), random yields / 20…270 µs sleeps at the "
                 "marker sites (three intensities), never a blocking acquisition by a session owner (the F19 pattern stays in `locks-scenarios`), under a 20 s watchdog. The global marker log (real-time order) is rendered as `call` / `at` / `atv` / `spur` lines: "
                 "acquisitions at their `got` marker, releases of the access lock lazily inside `pre … post`, failed `try_write`s at the first moment of `pre … busy` at which the model's lock is held (else the late `got` of the real holder is placed before it, "
                 "else — nobody can hold it — the parking_lot PARKED_BIT event `spur`). K = the model answers every line like the real code: `ok ran` (the step is the thread's next micro-step and enabled), the value an observation step sees "
-                "(session base root, Nomt::root, the stamp read through a session mapped to its root), `ok finished <result>` with the REAL result (ok / busy / err-stale / err-parent / err-not-enough), and the `final` line (root, content, rollback-log length, "
+                "(session base root, Nomt::root, the stamp read through a session mapped to its root), `ok finished <result>` with the REAL result (ok / busy / err-stale / err-parent / err-not-enough / err-superseded for a refused `finish`), and the `final` line (root, content, rollback-log length, "
                 "poison flag, verdicts in write-guard order). Oracles independent of the model: a session reads the stamp of the state its base root names; the write sections in write-guard order, replayed by a 20-line sequential interpreter in the harness, give every "
                 "real result, the final root and the log length; final state not torn; not poisoned; no panic; terminates. distinct & non-trivial = distinct rendered schedules with at least 2 calls started while another thread was inside a call.")
 # corpus: the history in which `rollback(1)` on a poisoned handle panicked in a merkle worker (finding F21, repaired by f36444c: must pass)
